@@ -464,8 +464,15 @@ func (r *rwRT) ruleImport() {
 			var stored AV
 			var added []AV
 			for _, e := range o.St.Events {
-				if e.Kind == "store" && e.Target == "r.seqImportedName" {
-					stored = e.Args[0]
+				if e.Kind == "store" && strings.HasPrefix(e.Target, "r.") {
+					// the field itself, or a group of per-file fields re-initialised by one composite literal
+					if strings.HasSuffix(e.Target, ".seqImportedName") {
+						stored = e.Args[0]
+					} else if sv, ok := e.Args[0].(StructV); ok {
+						if v, ok := sv.Fields["seqImportedName"]; ok {
+							stored = v
+						}
+					}
 				}
 				if e.Kind == "call" && e.Fn != nil && (e.Fn.Name() == "AddNamedImport" || e.Fn.Name() == "AddImport") {
 					added = e.Args
